@@ -15,10 +15,11 @@ def run(run):
     quick = run.tier == 'quick'
     run.rule = ('cases = GraphSM behaviours containing SaveLoad(fmt, withModel) in {json, yml} x {model, no model}; '
                 'non-trivial = SaveLoad preceded by at least two graph actions; distinct by action sequence')
-    run.assumptions = ['graphs with asset-less nodes are not round-tripped (their names derive from ids)']
+    run.assumptions = []
     gsm.mc_slice(run, 'C10', 6, depth=7, must=('SaveLoad',))
     gsm.bfs_slice(run, 'C10', 4 if quick else 5, keep=KEEP)
     gsm.bfs_slice(run, 'C10R', 5 if quick else 6, keep=KEEP)      # undo / remove_node, then save and load
+    gsm.bfs_slice(run, 'C10A', 5 if quick else 6, keep=KEEP)      # nodes without an asset; a loaded graph saved and loaded again
     # two attackers sharing a name (once an open finding, repaired by 30f4fbb): exercised on every run
     gsm.bfs_slice(run, 'C10F', 4, keep=KEEP)
     gsm.simulate(run, 'C10', 9, 3000 if quick else 40000, keep=KEEP, free=False, timeout=300 if quick else 1800)
